@@ -82,7 +82,14 @@ func c19Routing(r *vc.Run) {
 		return
 	}
 	defer tc2.Close()
-	ch, err := w.StartClient("c19-route", r.Tier == "thorough", world.InitArg{LoadBalance: "XID", Replace: map[string]string{w.TC.Addr: w.TC.Addr + ";" + tc2.Addr}}, nil)
+	db := w.NewDB("at")
+	db.CreateUndoLog()
+	rt := atGenTable(vc.NewRand(r.Seed, "c19-route"), "c19rt", "int", []string{"int"}, 1, 4, false)
+	rd := *rt.Def
+	db.E.CreateTable(&rd)
+	db.E.Load(rt.Name, rt.Rows)
+	ch, err := w.StartClient("c19-route", r.Tier == "thorough", world.InitArg{LoadBalance: "XID", Replace: map[string]string{w.TC.Addr: w.TC.Addr + ";" + tc2.Addr},
+		DBs: []world.DBSpec{{Name: "at", Driver: "seata-at-mysql", DSN: db.DSN("app", ""), MaxOpen: 4, Class: "proxied"}}}, nil)
 	if err != nil {
 		r.Errorf("%v", err)
 		return
@@ -106,8 +113,15 @@ func c19Routing(r *vc.Run) {
 		name := fmt.Sprintf("c19r-%04d", i)
 		outcome := []string{"nil", "error"}[i%2]
 		var steps []gtxStep
-		if i%3 != 0 {
+		switch i % 4 {
+		case 1:
 			steps = []gtxStep{{Op: "tcc", Action: "c19RouteAct", Params: json.RawMessage(`{"kind":"int","a":1}`)}}
+		case 2:
+			// an AT branch: BranchRegister and BranchReport carry the xid
+			steps = []gtxStep{{Op: "exec", DB: "at", SQL: fmt.Sprintf("update %s set c0 = %d where id = %d", rt.Name, i, 1+i%4)}}
+		case 3:
+			// a locking read: the GlobalLockQuery carries the xid
+			steps = []gtxStep{{Op: "begin", DB: "at"}, {Op: "query", DB: "at", SQL: fmt.Sprintf("select * from %s where id = %d for update", rt.Name, 1+i%4)}, {Op: "commit"}}
 		}
 		start := w.Clock.Now()
 		var res scopeResult
@@ -139,13 +153,27 @@ func c19Routing(r *vc.Run) {
 			}
 		}
 		sort.Strings(hist)
-		shape := fmt.Sprintf("routing|XID|branch=%v|outcome=%s", len(steps) > 0, outcome)
+		kinds := map[string]bool{}
+		for _, h := range hist {
+			f := strings.Fields(h)
+			if len(f) > 4 {
+				kinds[f[4]] = true
+			}
+		}
+		shape := fmt.Sprintf("routing|XID|requests=%s|outcome=%s", strings.Join(sortedKeys(kinds), "+"), outcome)
 		if xid == "" || home == "" || routed == 0 {
 			r.Case("", nil)
 			continue
 		}
 		r.Case(shape, map[string]interface{}{"xid": xid, "requests": hist})
 		r.Count("requests_with_xid_routed", int64(routed))
+		// phase two of the finished transaction, so that locks and branches do not pile up
+		for addr, tc := range tcs {
+			if addr == home {
+				tc.DrivePhaseTwo(xid, outcome == "nil" && res.Returned == "nil", 1, 0)
+				tc.ReleaseLocks(xid)
+			}
+		}
 		if misrouted > 0 {
 			r.Violate(&vc.Violation{Clause: "xid-policy-ignored", Shape: shape, Features: map[string]string{"policy": "XID", "part": "routing"},
 				Detail:  fmt.Sprintf("%d of %d requests carrying xid %s went to the other coordinator although the session to %s was open", misrouted, routed, xid, home),
